@@ -117,28 +117,28 @@ func (t *tap) Request(m interface{}, sender *actor.PID) {
 // ---------------------------------------------------------------- node
 
 type cnode struct {
-	w     *world
-	dir   string
-	cfg   *config.Config
-	cs    *chain.ChainService
-	cons  *stubCons
-	hub   *component.ComponentHub
-	core  *chain.Core // the block producer's own stores
-	keys  [nAcc]*btcec.PrivateKey
-	ts    int64
-	mu    sync.Mutex
-	dels  [][]byte // block hashes of the MemPoolDel messages the chain service sent since the last clear
-	puts  [][]byte // tx hashes of the MemPoolPut messages the chain service sent
-	deltx [][]byte
-	byHash map[string]*blk
-	gen   *blk
-	price *big.Int // gas price (chain parameter)
-	nameP *big.Int // name price (chain parameter)
-	nverif int
+	w       *world
+	dir     string
+	cfg     *config.Config
+	cs      *chain.ChainService
+	cons    *stubCons
+	hub     *component.ComponentHub
+	core    *chain.Core // the block producer's own stores
+	keys    [nAcc]*btcec.PrivateKey
+	ts      int64
+	mu      sync.Mutex
+	dels    [][]byte // block hashes of the MemPoolDel messages the chain service sent since the last clear
+	puts    [][]byte // tx hashes of the MemPoolPut messages the chain service sent
+	deltx   [][]byte
+	byHash  map[string]*blk
+	gen     *blk
+	price   *big.Int // gas price (chain parameter)
+	nameP   *big.Int // name price (chain parameter)
+	nverif  int
 	nameSeq int
-	view  *blk  // the block the pool was last notified of
-	tips  []*blk
-	events []string // replay: everything done to the node, in order
+	view    *blk // the block the pool was last notified of
+	tips    []*blk
+	events  []string // replay: everything done to the node, in order
 }
 
 func (n *cnode) rec(m interface{}) {
@@ -1143,9 +1143,13 @@ func (n *cnode) genQuery() {
 	case 3: // the unconfirmed-transaction report over every account (JSON as the RPC layer gets it)
 		r := n.ask(message.MemPoolSvc, &message.MemPoolTxStat{}).(*message.MemPoolTxStatRsp)
 		var rep []struct {
-			Address  string `json:"address"`
-			Pooled   struct{ Count int `json:"count"` } `json:"pooled"`
-			Orphaned struct{ Count int `json:"count"` } `json:"orphaned"`
+			Address string `json:"address"`
+			Pooled  struct {
+				Count int `json:"count"`
+			} `json:"pooled"`
+			Orphaned struct {
+				Count int `json:"count"`
+			} `json:"orphaned"`
 		}
 		if err := json.Unmarshal(r.Data, &rep); err != nil {
 			panic(err)
@@ -1180,8 +1184,14 @@ func (n *cnode) genQuery() {
 		a := rng.Intn(nAcc)
 		r := n.ask(message.MemPoolSvc, &message.MemPoolTx{Accounts: []types.Address{w.addr[a]}}).(*message.MemPoolTxRsp)
 		var rep []struct {
-			Pooled   struct{ Count int `json:"count"`; IDs []string `json:"id"` } `json:"pooled"`
-			Orphaned struct{ Count int `json:"count"`; IDs []string `json:"id"` } `json:"orphaned"`
+			Pooled struct {
+				Count int      `json:"count"`
+				IDs   []string `json:"id"`
+			} `json:"pooled"`
+			Orphaned struct {
+				Count int      `json:"count"`
+				IDs   []string `json:"id"`
+			} `json:"orphaned"`
 		}
 		if err := json.Unmarshal(r.Data, &rep); err != nil || len(rep) != 1 {
 			panic(fmt.Sprintf("unconfirmed report: %v %d", err, len(rep)))
